@@ -651,6 +651,8 @@ def replay(rj):
             o.pop("scenario_json", None)
         elif rj["kind"] == "early-close":
             o = early_close_case(ninja)
+        elif rj["kind"] == "slow-to-die":
+            o = _slow_to_die_case((rj["signal"], ninja))
         elif rj["kind"] == "signal-outside-wait":
             o = _signal_outside_wait_case((rj["signal"], ninja, rj.get("variant", 0)))
         elif rj["kind"] == "signal":
@@ -737,7 +739,68 @@ def signal_outside_wait():
         return pool.map(_signal_outside_wait_case, [(s, ninja, v) for s in ("SIGINT", "SIGTERM", "SIGHUP") for v in (0, 1)])
 
 
+# A command that does not die on the spot: it catches the signal, writes to its output once more while it winds down and
+# only then exits (a tool that flushes what it has on termination, a wrapper with a trap).  "ninja stops the running
+# commands [and] removes the outputs they had already modified": ninja has to wait until the command is gone before it
+# removes the output and exits, or the dying command's last write survives.
+SLOW_TO_DIE_MANIFEST = """rule slowdeath
+  command = trap 'sleep 0.6; echo written-while-dying > $out; exit 1' INT TERM HUP; echo partial > $out; sleep 30 & wait
+rule r
+  command = cat $in > $out
+build a: slowdeath
+build b: r a
+default b
+"""
+
+
+def _slow_to_die_case(args):
+    signame, ninja = args
+    root = tempfile.mkdtemp(prefix="rbdie.", dir=rb.SHM)
+    out = {"signal": signame, "scenario": "command_slow_to_die", "wait": 0, "partial": True, "problems": [], "variant": 2}
+    try:
+        with open(os.path.join(root, "build.ninja"), "w") as f:
+            f.write(SLOW_TO_DIE_MANIFEST)
+        p = subprocess.Popen([ninja, "-j2"], cwd=root, stdout=open(os.path.join(root, "ninja.out"), "wb"), stderr=subprocess.STDOUT,
+                             start_new_session=True)
+        t0 = time.time()
+        while not os.path.exists(os.path.join(root, "a")) and time.time() - t0 < 20:
+            time.sleep(0.01)
+        time.sleep(0.1)
+        os.kill(p.pid, getattr(signal, signame))
+        try:
+            p.wait(timeout=20)
+        except subprocess.TimeoutExpired:
+            p.kill()
+            p.wait()
+            out["problems"].append("ninja did not exit within 20 s of the signal")
+        t_exit = time.time()
+        out["exit"] = p.returncode
+        if p.returncode != 130 and not out["problems"]:
+            out["problems"].append("exit status %s instead of 130" % p.returncode)
+        time.sleep(1.5)   # whatever the dying command still had to write has been written by now
+        if os.path.exists(os.path.join(root, "a")):
+            out["problems"].append("the output of the interrupted command exists %.1f s after ninja exited (%r): ninja did not wait for the "
+                                   "command to be gone before it removed the output" % (time.time() - t_exit, open(os.path.join(root, "a")).read()[:40]))
+        if os.path.exists(os.path.join(root, ".ninja_lock")):
+            out["problems"].append("lock file left behind")
+    except Exception as e:  # noqa
+        out["problems"].append("exception: %r" % (e,))
+    finally:
+        shutil.rmtree(root, ignore_errors=True)
+    return out
+
+
+def slow_to_die():
+    ninja, _ = rb.build_tools()
+    with multiprocessing.Pool(3) as pool:
+        return pool.map(_slow_to_die_case, [(s, ninja) for s in ("SIGINT", "SIGTERM", "SIGHUP")])
+
+
 def c07_process_level(c):
+    for p in slow_to_die():
+        if p["problems"]:
+            c.violation("C07/process-level %s, a command that is slow to die: %s" % (p["signal"], "; ".join(p["problems"])),
+                        {"engine": "rb", "kind": "slow-to-die", "signal": p["signal"], "variant": 2, "problems": p["problems"]})
     for p in signal_outside_wait():
         if p["problems"]:
             c.violation("C07/process-level %s: %s" % (p["signal"], "; ".join(p["problems"])),
